@@ -179,6 +179,7 @@ Pow2Fill(salt, i, j) == LET k == (i + 2 * j + salt) % 3
 \* "unitU" / "unitL": unit upper / lower triangular with off-diagonal entries in -1 .. 1
 Val(mode, salt, i, j) ==
     CASE mode = "plain" -> Fill(salt, i, j)
+      [] mode = "zero" -> 0
       [] mode = "x4" -> 4 * Fill(salt, i, j)
       [] mode = "pow2" -> Pow2Fill(salt, i, j)
       [] mode = "unitU" -> IF i = j THEN 1 ELSE IF i < j THEN (AbsI(Fill(salt, i, j)) % 3) - 1 ELSE 0
